@@ -7,6 +7,7 @@ import (
 	"encoding/hex"
 	"encoding/json"
 	"fmt"
+	"math"
 	"math/rand/v2"
 	"net/http/httptest"
 	"reflect"
@@ -203,6 +204,9 @@ func c12Frames(r *rand.Rand, i int, cat []c11Class) []c12Frame {
 			out = append(out, c12Frame{data: []byte(t), valid: true, class: "valid/" + label, tree: tree})
 		case c < 55: // a genuine hostile-content event, remembered for replay attacks
 			e := &mocrelay.Event{Kind: int64(r.IntN(30000)), CreatedAt: r.Int64N(1 << 33), Content: vk.HostileString(r, 30), Tags: []mocrelay.Tag{{"t", vk.HostileString(r, 8)}}}
+			if r.IntN(4) == 0 { // timestamps that do not survive a trip through float64
+				e.CreatedAt = vk.Pick(r, []int64{1<<53 + 1, 1234567890123456789, math.MaxInt64, math.MaxInt64 - 1, 1<<62 + 1})
+			}
 			vk.Sign(vk.KeyN(r.IntN(8)), e)
 			genuine = append(genuine, e)
 			t := evText(e)
